@@ -27,6 +27,10 @@ def h16a(c, n=2, mode="S", statuses="quick", kinds=None, new_kinds=None, part_ca
             pos.install(fl, market, strategy, o, d, 100 + i)
             orders.append(o)
             ds.append(d)
+        if mode == "P" and c.choose("orders_sent_asynchronously", [False, True]):
+            # (how an order was sent makes no difference to what counts: an order awaiting its acknowledgement is left out either way)
+            for o in orders:
+                o.async_ = True
         variant = c.choose("variant", ["plain", "exclusion", "new_order"])
         c.tag("variant", variant)
         lookup = (cm.MID, 1, 0)
